@@ -42,7 +42,7 @@ def _mods():
 _CP = "progress/_composite_progress_observer.py"
 
 
-@unit("progress.composite", props=["C15"], functions=[(_CP, "CompositeProgressObserver.__init__"), (_CP, "CompositeProgressObserver.__enter__"), (_CP, "CompositeProgressObserver.__exit__"),
+@unit("progress.composite", props=["C15", "C07"], functions=[(_CP, "CompositeProgressObserver.__init__"), (_CP, "CompositeProgressObserver.__enter__"), (_CP, "CompositeProgressObserver.__exit__"),
                                                       (_CP, "CompositeProgressObserver.increment_total"), (_CP, "CompositeProgressObserver.increment_running"),
                                                       (_CP, "CompositeProgressObserver.increment_completed"), (_CP, "CompositeProgressObserver.increment_failed")],
       assumptions=["contextlib.ExitStack as documented", "parametric in the members: run natively with 0..3 members"], min_obligations=4, kind="concrete-parametric")
@@ -83,7 +83,8 @@ def composite_unit(ctx):
     kind, val = _catch(ctx, c.__enter__)
     if fail_at < k:
         ctx.check("enter:failure-of-member-j-propagates-and-the-j-members-already-entered-are-exited", bool(
-            kind == "raise" and isinstance(val, Boom) and all(m.ev == [("enter",), ("exit",)] for m in ms[:fail_at]) and all(m.ev == [] for m in ms[fail_at:])))
+            kind == "raise" and isinstance(val, Boom) and all(m.ev == [("enter",), ("exit",)] for m in ms[:fail_at]) and all(m.ev == [] for m in ms[fail_at:])),
+            props=["C15", "C07"], info="run's ``with progress_observer`` does not call __exit__ when __enter__ raised: a display that was already entered (and started its update thread) would never be stopped")
         return "enter-failed"
     ctx.check("enter:every-member-entered-once", bool(kind == "ret" and all(m.ev == [("enter",)] for m in ms)))
     E = ValueError("x")
